@@ -27,7 +27,7 @@ UNARY_OPERATORS = ("inv", "neg")
 COPIES = ("copy", "deepcopy", "simple_from_jordan", "jcopy", "jinv", "jabs")
 UNARY_QUERIES = (
     "area", "moment", "jlen", "box", "in_point", "contains_point", "points", "str",
-    "repr", "plot", "bool", "jarea",
+    "repr", "plot", "bool", "jarea", "seg_derivate", "seg_eval",
 )
 BINARY_QUERIES = ("in_shape", "contains_jordan", "eq", "ne", "jinter", "jand")
 TRANSFORMS = ("move", "scale", "rotate", "invert")
@@ -125,6 +125,12 @@ def perform(step, objs):
         return a.contains_point(pt(step["p"]), step["boundary"])
     if op == "points":
         return jordan_of(a, step["k"]).points(step["n"])
+    if op == "seg_derivate":
+        segs = jordan_of(a, step["k"]).segments
+        return segs[step["i"] % len(segs)].derivate(step["times"]).ctrlpoints
+    if op == "seg_eval":
+        segs = jordan_of(a, step["k"]).segments
+        return [segs[step["i"] % len(segs)](num(step["t"]))]
     if op == "str":
         return str(a)
     if op == "repr":
@@ -202,7 +208,7 @@ def normalise(outcome, payload):
         return ("box", ["box"] + [_numrepr(v) for v in vals], vals)
     if isinstance(x, str):
         return ("str", ["s", x], x)
-    if isinstance(x, tuple) and len(x) == 2 and x[0] == "plotted":
+    if isinstance(x, tuple) and len(x) == 2 and isinstance(x[0], str) and x[0] == "plotted":
         return ("plot", ["plot", x[1]], x[1])
     if isinstance(x, (tuple, list)):
         rows = []
